@@ -317,5 +317,8 @@ def check(ctx, rep):
     rule_cdata_state(ctx, rep)
     rule_optional_format(ctx, rep)
     rule_raw_write_flush(ctx, rep)
+    from .c03 import rule_line_unit
+
+    rule_line_unit(ctx, rep)
     rule_shared(ctx, rep)
     rep.not_covered += ["XML infoset equality through expat / XMLGenerator", "locator column arithmetic", "byte identity of untouched lines beyond 'the line itself is appended'"]
